@@ -1,5 +1,3 @@
-//go:build wip_c18
-
 package props
 
 import (
@@ -29,6 +27,7 @@ func init() {
 		Assumptions: []string{
 			"a callee changes caller-visible memory only through pointers passed to it (receiver or arguments); interface methods of the register provider may return any value",
 			"encoding/binary byte-order helpers panic exactly when their slice argument is shorter than the word they access",
+			"where int has 32 bits, slice lengths are assumed to stay below 2^24 (no Modbus buffer comes near the wrap-around point)",
 			"loop counters do not overflow (every increment is guarded by a strict comparison of the same type)",
 			"protocol limits and exception codes are taken from the Modbus Application Protocol V1.1b3",
 			"a request shorter than the minimum for its function code is returned to the caller as an error (no response); this path is not judged",
@@ -369,16 +368,25 @@ func boundsRule(c *kit.Ctx, r *kit.Rule, fs []*kit.Func, label func(f *kit.Func,
 		}
 		var wit map[ast.Node]*kit.Witness
 		var st kit.WitnessStats
-		if unproved > 0 || c.Tier == "thorough" {
+		// thorough tier, unchanged tree, default configuration: always search
+		// (cross-check of the prover); otherwise only for unproved
+		// obligations, with a small budget when the run is one of many
+		// overlay variants
+		full := c.Tier == "thorough" && c.P.Cfg.Overlay == nil && c.Config == "default"
+		if unproved > 0 || full {
 			var want []ast.Node
-			if c.Tier != "thorough" {
+			budget := 0
+			if !full {
 				for _, ob := range b.Obs {
 					if !ob.Proved {
 						want = append(want, ob.Node)
 					}
 				}
+				if c.Tier == "thorough" {
+					budget = 250000
+				}
 			}
-			wit, st = kit.FindCrashes(c.P, f, 0, want)
+			wit, st = kit.FindCrashes(c.P, f, budget, want)
 			c.AddValuations(st.Runs)
 		}
 		seen := map[string]int{}
@@ -435,9 +443,9 @@ func c18R3(c *kit.Ctx, m *mbModel) {
 	}
 	def := m.defaultArm()
 	type outcome struct {
-		arm  *mbArm
-		bad  string
-		und  string
+		arm *mbArm
+		bad string
+		und string
 	}
 	eval := func(code int64) outcome {
 		ip := m.reqInterp(code, 300, nil)
